@@ -263,8 +263,14 @@ func TestC14_R_LargeInlineData(t *testing.T) {
 // have interior nodes): link and Size() equal the reference importer's, and the sizes written into an enclosing
 // directory are the true cumulative sizes.
 func quickFileCase(t *testing.T, n int) (st *Store, fileLink cid.Cid, fileSize uint64, dirLink cid.Cid, dirSize uint64, data []byte) {
+	return quickFileCaseEnv(t, n, 0)
+}
+
+// quickFileCaseEnv: the same through a link system whose raw codec frames leaf blocks (see Store.RawEnvelope).
+func quickFileCaseEnv(t *testing.T, n, envelope int) (st *Store, fileLink cid.Cid, fileSize uint64, dirLink cid.Cid, dirSize uint64, data []byte) {
 	data = lcgBytes(n, 11, 0)
 	st = NewStore()
+	st.RawEnvelope = envelope
 	err := quickbuilder.Store(st.LinkSystem(), func(b *quickbuilder.Builder) error {
 		f := b.NewBytesFile(data)
 		fileLink = cidOf(f.Link())
@@ -301,8 +307,13 @@ func TestC07_R_QuickBuilderFiles(t *testing.T) {
 }
 
 func TestC11_R_QuickBuilderSizes(t *testing.T) {
-	for _, n := range quickFileSizes {
-		st, fl, fsz, dl, dsz, _ := quickFileCase(t, n)
+	for i, n := range append(append([]int{}, quickFileSizes...), 100, 127, 128, 16383, 16384, 300000) {
+		// the later sizes through raw codecs that frame the leaves: a fixed header and a uvarint length prefix
+		env := 0
+		if i >= len(quickFileSizes) {
+			env = []int{4, RawEnvelopeUvarint}[i%2]
+		}
+		st, fl, fsz, dl, dsz, _ := quickFileCaseEnv(t, n, env)
 		if want, err := st.CumulativeSize(fl, nil); err != nil || want != fsz {
 			t.Fatalf("C11: quick builder file of %d bytes reports Size() %d, true cumulative size %d (%v)", n, fsz, want, err)
 		}
@@ -1639,5 +1650,140 @@ func wideNodesWithEmptyChunks(t *testing.T, prop string) {
 	}
 }
 
-func TestC20_R_WideNodesWithEmptyChunks(t *testing.T) { wideNodesWithEmptyChunks(t, "C20") }
-func TestC06_R_WideNodesWithEmptyChunks(t *testing.T) { wideNodesWithEmptyChunks(t, "C06") }
+func TestC20_R_WideNodesWithEmptyChunks(t *testing.T) {
+	wideNodesWithEmptyChunks(t, "C20")
+	wideNodeWithLongEmptyRun(t, "C20")
+}
+func TestC06_R_WideNodesWithEmptyChunks(t *testing.T) {
+	wideNodesWithEmptyChunks(t, "C06")
+	wideNodeWithLongEmptyRun(t, "C06")
+}
+
+// One node of 3000 links with a run of 2100 consecutive empty chunks in the middle (all the same empty raw block, as a
+// de-duplicating writer stores them): thousands of children at one byte offset. A full read and a preload finish within a
+// budget of block loads proportional to the links, request both distinct blocks around the run and deliver the content.
+func wideNodeWithLongEmptyRun(t *testing.T, prop string) {
+	m := &mnode{HasData: true, UFS: &ufsFields{Type: 2}}
+	empty := &mnode{IsRaw: true, Raw: nil}
+	var data []byte
+	tot := uint64(0)
+	for i := 0; i < 3000; i++ {
+		k, sz := empty, uint64(0)
+		if i < 450 || i >= 2550 {
+			c := lcgBytes(2, byte(i), 0)
+			k, sz = &mnode{IsRaw: true, Raw: c}, 2
+			data = append(data, c...)
+		}
+		m.Links = append(m.Links, mlink{Tsize: i64p(int64(sz)), Child: k})
+		m.UFS.BlockSizes = append(m.UFS.BlockSizes, sz)
+		tot += sz
+	}
+	m.UFS.FileSize = u64p(tot)
+	st := NewStore()
+	rc, err := m.store(st, st.LinkSystem())
+	if err != nil {
+		t.Fatal(err)
+	}
+	tree, err := st.FileTree(rc, 0)
+	if err != nil {
+		t.Fatal(err)
+	}
+	want := firstOccurrences(tree.PreOrder()[1:])
+	ls := st.LinkSystem()
+	for _, opName := range []string{"AsBytes", "unixfs-preload"} {
+		st.LoadBudget = 40000
+		st.BudgetExceeded = false
+		got, err := c20Run(st, rc, func(pn datamodel.Node) error {
+			if opName == "unixfs-preload" {
+				_, err := ls.KnownReifiers["unixfs-preload"](lcS, pn, ls)
+				return err
+			}
+			rn, err := ls.KnownReifiers["unixfs"](lcS, pn, ls)
+			if err != nil {
+				return err
+			}
+			b, err := rn.AsBytes()
+			if err == nil && !bytes.Equal(b, data) {
+				return fmt.Errorf("bytes differ (%d, want %d)", len(b), len(data))
+			}
+			return err
+		})
+		exceeded := st.BudgetExceeded
+		st.LoadBudget = 0
+		if exceeded {
+			t.Fatalf("%s: a file node of 3000 links with 2100 consecutive empty chunks via %s: more than 40000 block loads", prop, opName)
+		}
+		if err != nil {
+			t.Fatalf("%s: a file node of 3000 links with 2100 consecutive empty chunks via %s: %v", prop, opName, err)
+		}
+		if fmt.Sprint(got) != fmt.Sprint(want) {
+			t.Fatalf("%s: a file node of 3000 links with a long run of empty chunks via %s: %d distinct blocks requested, the depth-first walk has %d", prop, opName, len(got), len(want))
+		}
+	}
+}
+
+// C01 / C07: independent builds in parallel at a link width above the default (300: nodes of 202 .. 300 links), on stores
+// that give up the processor at every storage call: each goroutine's file must get the link and size it gets alone, and
+// read back with its own length and bytes.
+func concurrentWideBuilds(t *testing.T, prop string) {
+	const G, rounds = 8, 60
+	old := builder.DefaultLinksPerBlock
+	builder.DefaultLinksPerBlock = 300 // (a package variable: set once before the goroutines start)
+	defer func() { builder.DefaultLinksPerBlock = old }()
+	type job struct {
+		data []byte
+		want cid.Cid
+		wsz  uint64
+	}
+	jobs := make([]job, G)
+	for g := range jobs {
+		data := lcgBytes(3300+g*417, byte(g+1), 0) // 207 .. 390 chunks of 16 bytes
+		l, sz, err := builder.BuildUnixFSFile(bytes.NewReader(data), "size-16", NewStore().LinkSystem())
+		if err != nil {
+			t.Fatal(err)
+		}
+		jobs[g] = job{data, cidOf(l), sz}
+	}
+	errs := make(chan string, G)
+	var wg sync.WaitGroup
+	for g := 0; g < G; g++ {
+		wg.Add(1)
+		go func(g int) {
+			defer wg.Done()
+			for r := 0; r < rounds; r++ {
+				st := NewStore()
+				st.Yield = true
+				ls := st.LinkSystem()
+				l, sz, err := builder.BuildUnixFSFile(bytes.NewReader(jobs[g].data), "size-16", ls)
+				if err != nil || cidOf(l) != jobs[g].want || sz != jobs[g].wsz {
+					errs <- fmt.Sprintf("goroutine %d round %d: file of %d bytes at link width 300 built as %v / %d (err %v), alone as %s / %d", g, r, len(jobs[g].data), l, sz, err, jobs[g].want, jobs[g].wsz)
+					return
+				}
+				if r%10 == 0 {
+					rn, err := loadReified(ls, cidOf(l), "unixfs")
+					if err != nil {
+						errs <- fmt.Sprintf("goroutine %d: reify: %v", g, err)
+						return
+					}
+					rs, _ := rn.(datamodel.LargeBytesNode).AsLargeBytes()
+					if end, err := rs.Seek(0, io.SeekEnd); err != nil || end != int64(len(jobs[g].data)) {
+						errs <- fmt.Sprintf("goroutine %d round %d: the file built concurrently reports length %d (err %v), it has %d bytes", g, r, end, err, len(jobs[g].data))
+						return
+					}
+					if b, err := rn.AsBytes(); err != nil || !bytes.Equal(b, jobs[g].data) {
+						errs <- fmt.Sprintf("goroutine %d round %d: the file built concurrently reads back differently (%d bytes, err %v)", g, r, len(b), err)
+						return
+					}
+				}
+			}
+		}(g)
+	}
+	wg.Wait()
+	close(errs)
+	for e := range errs {
+		t.Fatalf("%s: %d goroutines building their own files at link width 300 at the same time: %s", prop, G, e)
+	}
+}
+
+func TestC07_R_ConcurrentWideBuilds(t *testing.T) { concurrentWideBuilds(t, "C07") }
+func TestC01_R_ConcurrentWideBuilds(t *testing.T) { concurrentWideBuilds(t, "C01") }
